@@ -489,7 +489,10 @@ def run(tier, seed):
     from .common import pmap_staged
 
     rtasks = [(task_repr, (p, True, tier, seed)) for p in ps] + [(task_regimes, (p, True, tier, seed)) for p in ps]
-    for d in pmap_staged(_dispatch, rtasks, [(task, t) for t in tasks]):
+    from .common import with_extra_validation
+
+    extra = [(with_extra_validation, (task, CP.P3(), True, tier, seed)), (with_extra_validation, (task_regimes, CP.P1(), True, tier, seed))]
+    for d in pmap_staged(_dispatch, rtasks, [(task, t) for t in tasks] + extra):
         rep.merge(d)
     rep.bounds = {"programs": [p.id for p in ps], "inputs": "all real dt, state, control, calibration; all symmetric P (proof) - witnesses restricted to diagonally dominant P; all per-control noise > 0", "outside": "floating-point rounding; validity gates treated as assumptions here (their behaviour is C09)"}
     rep.bounds["state_only_programs"] = "P24 (tiny coefficients): state obligations and concrete differentials only - the derivative constants sympy folds in floats differ from the exact products at 1e-29, exact covariance equality is refuted at that level and the 1e-9-relative claim on a box does not finish within the budget"
